@@ -3,7 +3,7 @@ uint16_t nondet_u16(void);
 char nondet_char(void);
 static inline void xv_addrpub_havoc(void)
 {
-    xv_i16 = nondet_long(); xv_nj = nondet_long(); xv_hb = nondet_long(); xv_g_b0 = nondet_uchar(); xv_g_b1 = nondet_uchar();
+    xv_nj = nondet_long(); xv_hb = nondet_long(); xv_g_b0 = nondet_uchar(); xv_g_b1 = nondet_uchar();
     xv_mk_calls = nondet_int(); xv_mk_rv = nondet_int(); xv_mk_errno = nondet_int(); xv_mk_type = nondet_int(); xv_mk_family = nondet_int();
     xv_mk_proto = (uint64_t)nondet_size_t(); xv_mk_port = nondet_u16(); xv_mk_cap = nondet_size_t(); xv_mk_out = nondet_bool(); xv_mk_namep = nondet_bool();
     xv_mk_ip4 = nondet_uint(); xv_mk_ipb = nondet_uchar(); xv_mk_namec = nondet_char();
@@ -14,3 +14,6 @@ static inline void xv_addrpub_havoc(void)
     xv_snprintf_calls = nondet_int(); xv_snprintf_ret = nondet_int(); xv_snprintf_cap = nondet_size_t();
     /* tracked pointers: left as DFCC's nondeterministic statics make them (any value) */
 }
+/* keeps a callee named under `replace:` in the goto program even if the code under proof stops calling it (goto-instrument
+ * refuses to replace a function that does not exist; the missing call then shows as a failed postcondition instead) */
+#define XV_KEEP(f) { void (*volatile xv_keep_)(void) = (void (*)(void))(f); (void)xv_keep_; }
